@@ -683,6 +683,11 @@ class Evaluator:
             if attr == "value":
                 v = base.value
                 return Const(v) if not isinstance(v, _Top) else TOP
+            # a member of a `class E(str, Enum)` has the str methods of its value
+            c = self.prog.classes.get(base.cls.qname)
+            v = base.value
+            if c is not None and any(PYTYPES.get(b) is str for b in c.bases) and isinstance(v, str) and hasattr(str, attr):
+                return ("bound", Const(v), attr)
             return TOP
         if isinstance(base, ModRef):
             d = self.prog._canon(f"{base.dotted}.{attr}")
